@@ -488,7 +488,8 @@ class FileStore(Store):
         """Write a file via a temporary file (kept in the metadata folder) and a rename,
         so that a crash leaves either the previous content or the complete new one."""
         # a temporary name of its own for every writer: concurrent writers of one key must not share it
-        tmp_path = f"{tmp_path}.{os.getpid()}.{threading.get_ident()}"
+        # (named after the writer only, not after the key: the name stays short whatever the key is called)
+        tmp_path = Path(tmp_path).parent / f".{os.getpid()}.{threading.get_ident()}.tmp"
         with open(tmp_path, "wb") as f:
             f.write(data)
         os.replace(tmp_path, path)
